@@ -14,4 +14,21 @@ pub mod feats3 {
     pub impl KindU8 of Kind<u8> { fn kind(self: @u8) -> felt252 { 'copied' } }
     // associated item constraint
     pub fn sum_iter<I, +Iterator<I>[Item: u8], +Drop<I>>(mut it: I) -> u32 { let mut t = 0_u32; while let Some(v) = it.next() { t += v.into(); } t }
+    // names that resolve only through a private / pub(crate) glob use, in signatures and in bodies
+    mod hidden_shapes {
+        #[derive(Copy, Drop)]
+        pub struct Rect { pub w: u32, pub h: u32 }
+        pub const UNIT: u32 = 1;
+        pub fn helper(a: u32) -> u32 { a / 2 + 1 }
+        pub trait Scale<T> { fn scale(self: T, by: u32) -> T; }
+        pub impl ScaleRect of Scale<Rect> { fn scale(self: Rect, by: u32) -> Rect { Rect { w: self.w * by, h: self.h * by } } }
+    }
+    use hidden_shapes::*;
+    pub fn area(r: Rect) -> u32 { r.w * r.h }
+    pub fn square(side: u32) -> Rect { Rect { w: side, h: side }.scale(UNIT) }
+    pub mod crate_glob {
+        pub(crate) use super::hidden_shapes::*;
+        pub fn unit_plus(a: u32) -> u32 { helper(a) + UNIT }
+        pub struct Holder { pub r: Rect }
+    }
 }
